@@ -5,6 +5,7 @@ import itertools
 from mc.core import UnitResult
 
 ID = "C19"
+PARTS = ['attr', 'bin', 'sub', 'un']      # outcome classes every run must produce (guards against a part of the exploration silently not running)
 RULE = ("state = one operation on literal operands: binary operator x operand pair, unary operator x operand, attribute name x operand, "
         "subscript x index; oracle: evaluate the expression under CPython; diagnosed <=> TypeError/AttributeError (IndexError for tuple indices); "
         "an inferred KnownValue must equal the result in value and type")
